@@ -39,6 +39,10 @@ type Env struct {
 	seedCalls  int
 	curSeed    uint32
 	haveSeed   bool
+	// WalAllowed, when set, relaxes CheckStructure's log check from equality with the model to
+	// membership: per key the log replay must yield one of the listed values (C10: a write that
+	// failed in the race with Close may have reached the log and not the index, or the reverse).
+	WalAllowed map[string]valset
 	nAPI       int
 	retained   []retained
 	NoRetain   bool
@@ -404,6 +408,24 @@ func (e *Env) CheckStructure(closed bool) *Violation {
 	wal, err := WalReplay(files, dbDir, true)
 	if err != nil {
 		return violf("format-decode", "independent decoder rejects the log: %v", err)
+	}
+	if e.WalAllowed != nil {
+		for k, v := range wal {
+			if _, ok := e.WalAllowed[k]; !ok {
+				return violf("wal-never-written", "log replay has %s=%s, a key no task ever wrote", clip([]byte(k)), showVal(v))
+			}
+		}
+		for k, set := range e.WalAllowed {
+			got := mval{}
+			if v, ok := wal[k]; ok {
+				got = mval{present: true, v: v}
+			}
+			if !set.has(got) {
+				return violf("wal-vs-allowed", "log replay has %s=%s; allowed: %v", clip([]byte(k)), got, set)
+			}
+		}
+		// a failed write may be in the log and not in the index: the index walk is not comparable
+		return nil
 	}
 	if len(wal) != len(e.Model.M) {
 		return violf("wal-vs-model", "log replay yields %d keys, model has %d", len(wal), len(e.Model.M))
